@@ -14,12 +14,13 @@ fn agg(rng: &mut Rng) -> String {
         0 => "COUNT(*)".to_owned(),
         1 => format!("COUNT({})", rng.pick(&["v", "w", "k", "r", "iv", "ts", "b"])),
         2 | 3 => format!("COUNT(DISTINCT {})", rng.pick(&["v", "w", "k", "iv", "ts", "s", "v", "b"])),
-        4 | 5 => format!("SUM({})", rng.pick(&["v", "w", "r", "v * 2", "v + w", "iv", "iv"])),
-        6 => format!("MIN({})", rng.pick(&["v", "w", "k", "s", "r", "iv", "ts", "b"])),
-        7 => format!("MAX({})", rng.pick(&["v", "w", "k", "s", "r", "iv", "ts", "b"])),
-        8 => format!("AVG({})", rng.pick(&["v", "w", "r", "iv"])),
+        // `t2 - ts`: sub-second intervals of either sign (column iv: whole seconds of either sign), see c04::C04_DEF
+        4 | 5 => format!("SUM({})", rng.pick(&["v", "w", "r", "v * 2", "v + w", "iv", "iv", "t2 - ts"])),
+        6 => format!("MIN({})", rng.pick(&["v", "w", "k", "s", "r", "iv", "ts", "b", "t2 - ts", "t2"])),
+        7 => format!("MAX({})", rng.pick(&["v", "w", "k", "s", "r", "iv", "ts", "b", "t2 - ts", "t2"])),
+        8 => format!("AVG({})", rng.pick(&["v", "w", "r", "iv", "t2 - ts", "t2 - ts"])),
         9 => format!("{}({})", rng.pick(&["STDDEV", "VARIANCE"]), rng.pick(&["v", "w", "r"])),
-        10 => format!("PERCENTILE({}, {})", rng.pick(&["v", "w", "k", "iv", "ts", "s"]), rng.pick(&["0.0", "0.5", "0.9", "1.0"])),
+        10 => format!("PERCENTILE({}, {})", rng.pick(&["v", "w", "k", "iv", "ts", "s", "t2 - ts"]), rng.pick(&["0.0", "0.5", "0.9", "1.0"])),
         11 => format!("BOOL_AND({})", rng.pick(&["v > 0", "w = 1", "k = 'a'", "b"])),
         12 => format!("BOOL_OR({})", rng.pick(&["v > 30", "w = 1", "k = 'a'", "b"])),
         _ => "COUNT(*) + 1".to_owned(),
@@ -86,34 +87,79 @@ pub fn run(p: &Params) -> Run {
     }
     // INT arguments at the 64-bit extremes: the exact sum may fit while a partial sum in SOME order does not. The code adds
     // with `checked_add` in arrival order, so such an input errors in one order and answers in another (finding D71) — known
-    // only in exactly that form: one order reports the overflow error, the other prints the exact sum.
+    // only in exactly that form, decided from the VALUES: the i128 partial sums say which order must overflow; the class is
+    // assigned when exactly one of the two orders overflows, that order reports exactly the overflow error kind
+    // (`err:UndefinedOperation`, nothing printed) and the other prints one record whose SUM cell PARSES to the exact sum
+    // (its COUNT(*) cell to the number of lines, its key to 'a'). Every other difference between the two orders — another
+    // error kind, an error in an order whose partial sums all fit, a wrong sum next to an error — is a violation. Both
+    // orders also go to the Lean model (`batch` cases: `addToSum` reports `undefinedOperation` at the same partial sum).
     for _ in 0..p.n(120, 3000) {
         let pool: &[i64] = &[i64::MAX, i64::MAX - 1, 1, -1, 2, -2, i64::MIN, i64::MIN + 1, 0, 4611686018427387904, -4611686018427387904];
         let vals: Vec<i64> = (0..2 + rng.below(4)).map(|_| *rng.pick(pool)).collect();
         let exact: i128 = vals.iter().map(|v| *v as i128).sum();
-        let fits = exact >= i64::MIN as i128 && exact <= i64::MAX as i128;
         let q = *rng.pick(&["SELECT SUM(v) FROM t", "SELECT k, SUM(v) FROM t GROUP BY k", "SELECT COUNT(*), SUM(v) FROM t"]);
         let prepared = match prepare(C04_DEF, q) { Ok(p) => p, Err(_) => continue };
-        let lines: Vec<String> = vals.iter().map(|v| format!("a;{};1;;;;;", v)).collect();
-        let mut perm = lines.clone();
-        perm.reverse();
-        if rng.chance(1, 2) { rng.shuffle(&mut perm); }
+        let mut pvals = vals.clone();
+        pvals.reverse();
+        if rng.chance(1, 2) { rng.shuffle(&mut pvals); }
+        let to_lines = |vs: &[i64]| -> Vec<String> { vs.iter().map(|v| format!("a;{};1;;;;;", v)).collect() };
+        let (lines, perm) = (to_lines(&vals), to_lines(&pvals));
+        // does SOME partial sum of this order leave the 64-bit range? (the running sum starts at 0)
+        let overflows = |vs: &[i64]| -> bool { let mut acc = 0i128; vs.iter().any(|v| { acc += *v as i128; acc < i64::MIN as i128 || acc > i64::MAX as i128 }) };
+        let (ov_a, ov_b) = (overflows(&vals), overflows(&pvals));
         let a = run_files(&prepared, &[join_lines(&lines)]);
         let b = run_files(&prepared, &[join_lines(&perm)]);
         run.oracle_checks += 1;
         run.count("extreme-int-sums");
         let desc = format!("query={} input={:?} permuted={:?}", q, lines, perm);
-        if a.status == "panic" || b.status == "panic" { run.fail(desc, "panic:extreme-sum", "panicked".to_owned()); continue; }
-        if a.status == b.status && a.records() == b.records() {
-            // both orders agree; a value must be the exact sum
-            if a.status == "ok" && fits && !a.records().iter().any(|r| r.contains(&exact.to_string())) {
-                run.fail(desc, "sum-not-exact", format!("printed {:?}, the exact sum is {}", a.records(), exact));
+        for (r, ls, ov) in [(&a, &lines, ov_a), (&b, &perm, ov_b)] {
+            if let Some(case) = batch_case(&prepared, b"", &[join_lines(ls)], None) {
+                run.case_with_desc(case, r.wire(), format!("extreme-sum:{}:overflows{}:{}", r.status, ov as u8, q.len()), format!("query={} input={:?}", q, ls));
             }
-            continue;
         }
-        let (okr, err) = if a.status == "ok" { (&a, &b) } else { (&b, &a) };
-        let d71 = fits && okr.status == "ok" && err.status.starts_with("err:") && okr.records().iter().any(|r| r.contains(&exact.to_string()));
-        run.fail(desc, if d71 { "D71:int-sum-order-dependent-overflow" } else { "permutation-changes-result" }, format!("{} {:?} vs {} {:?} (exact sum {})", a.status, a.records(), b.status, b.records(), exact));
+        if a.status == "panic" || b.status == "panic" { run.fail(desc, "panic:extreme-sum", "panicked".to_owned()); continue; }
+        // the one record of an answering run, parsed: (key, COUNT(*), SUM) as far as the statement has them
+        let parsed = |r: &crate::engine_run::BatchResult| -> Option<(Option<String>, Option<i128>, Option<i128>)> {
+            let recs = r.records();
+            if r.status != "ok" || recs.len() != 1 { return None; }
+            let (mut key, mut count, mut sum) = (None, None, None);
+            for part in recs[0].split(", ") {
+                let (name, value) = part.split_once(": ")?;
+                if name == "k" { key = Some(value.to_owned()); }
+                else if name.starts_with("count") { count = Some(value.parse::<i128>().ok()?); }
+                else if name.starts_with("sum") { sum = Some(value.parse::<i128>().ok()?); }
+                else { return None; }
+            }
+            Some((key, count, sum))
+        };
+        // what an order whose partial sums all fit must print: the exact sum (and the line count, the key 'a')
+        let answers_exactly = |r: &crate::engine_run::BatchResult| -> bool {
+            match parsed(r) {
+                Some((key, count, Some(sum))) => sum == exact && key.map_or(!q.contains("GROUP BY"), |k| q.contains("GROUP BY") && k == "'a'") && count.map_or(!q.contains("COUNT"), |c| q.contains("COUNT") && c == vals.len() as i128),
+                _ => false,
+            }
+        };
+        const OVERFLOW: &str = "err:UndefinedOperation";
+        let reports_overflow = |r: &crate::engine_run::BatchResult| r.status == OVERFLOW && r.records().is_empty();
+        let show = format!("{} {:?} (some partial sum overflows: {}) vs {} {:?} (overflows: {}); exact sum {}", a.status, a.records(), ov_a, b.status, b.records(), ov_b, exact);
+        match (ov_a, ov_b) {
+            // no partial sum overflows in either order: both must print the exact sum
+            (false, false) => if !(answers_exactly(&a) && answers_exactly(&b)) {
+                run.fail(desc, if a.status == b.status && a.records() == b.records() { "sum-not-exact" } else { "permutation-changes-result" }, show);
+            },
+            // both orders pass through an overflowing partial sum: the same outcome in both is all the property asks
+            (true, true) => if a.status != b.status || a.records() != b.records() { run.fail(desc, "permutation-changes-result", show); },
+            // exactly one order overflows: the outcomes may only differ as finding D71 documents; equal outcomes must be right
+            _ => {
+                let (answering, erroring) = if ov_a { (&b, &a) } else { (&a, &b) };
+                if a.status == b.status && a.records() == b.records() {
+                    if !answers_exactly(answering) { run.fail(desc, "sum-not-exact", show); }
+                } else {
+                    let d71 = reports_overflow(erroring) && answers_exactly(answering);
+                    run.fail(desc, if d71 { "D71:int-sum-order-dependent-overflow" } else { "permutation-changes-result" }, show);
+                }
+            }
+        }
     }
     // split: the result over a concatenation is the key-wise combination of the results over the parts
     let m = p.n(800, 30_000);
@@ -136,6 +182,67 @@ pub fn run(p: &Params) -> Run {
                     run.fail(desc, "split-merge-differs", format!("whole={:?} merged={:?}", w, merged));
                 }
                 run.count("split-checked");
+            }
+            (RowsOutcome::Panic(m), _, _) | (_, RowsOutcome::Panic(m), _) | (_, _, RowsOutcome::Panic(m)) => run.fail(desc, "panic:split", m),
+            _ => run.count("split-error"),
+        }
+    }
+    // split, every aggregate the property names and HAVING — through the program: the input as ONE file and the same lines cut into
+    // TWO files at any line must give the same answer (status, records, line count). The statements are the general ones of this
+    // check (AVG, STDDEV / VARIANCE, COUNT(DISTINCT), PERCENTILE, BOOL_AND / BOOL_OR, WHERE, HAVING with hidden aggregates); what a
+    // part has to hand over are its per-group SUMMARIES, not its printed table (with HAVING the printed tables of the parts do not
+    // determine the whole: Props/PipelineLines.lean `having_parts_do_not_determine_the_whole`). The two-file run also goes to the
+    // Lean model.
+    for _ in 0..p.n(500, 20_000) {
+        let q = if rng.chance(1, 4) {
+            format!("SELECT k, AVG(v), VARIANCE(w), COUNT(DISTINCT v), PERCENTILE(v, {}), COUNT(*) FROM t{} GROUP BY k HAVING {}",
+                rng.pick(&["0.5", "0.9", "0.0"]), if rng.chance(1, 3) { " WHERE v > 0" } else { "" },
+                rng.pick(&["COUNT(*) > 1", "COUNT(*) > 1 AND AVG(v) >= 0", "COUNT(DISTINCT w) >= 2", "SUM(v) > 5 OR COUNT(v) = 1", "AVG(t2 - ts) >= '00:00:00'::interval"]))
+        } else { query(&mut rng) };
+        let prepared = match prepare(C04_DEF, &q) { Ok(p) => p, Err(_) => { run.count("rejected"); continue; } };
+        let large = rng.chance(1, 8);
+        let lines: Vec<String> = gen_typed_input(&mut rng, large);
+        let cut = rng.below(lines.len() + 1);
+        let one = run_files(&prepared, &[join_lines(&lines)]);
+        let two_files = vec![join_lines(&lines[..cut]), join_lines(&lines[cut..])];
+        let two = run_files(&prepared, &two_files);
+        run.oracle_checks += 1;
+        let desc = format!("query={} input={:?} cut={}", q, lines, cut);
+        if one.status == "panic" || two.status == "panic" { run.fail(desc.clone(), "panic:split", "panicked".to_owned()); }
+        else if one != two {
+            run.fail(desc.clone(), "split-into-files-changes-result", format!("one file: {} {:?} ({} lines); cut into two files: {} {:?} ({} lines)", one.status, one.records(), one.total_lines, two.status, two.records(), two.total_lines));
+        }
+        run.count(&format!("split-files:{}", one.status.split(':').next().unwrap_or("")));
+        if let Some(case) = batch_case(&prepared, b"", &two_files, None) {
+            run.case_with_desc(case, two.wire(), format!("split-files:{}:h{}:r{}", two.status, q.contains("HAVING") as u8, two.records().len().min(3)), desc);
+        }
+    }
+    // split with HAVING, from the parts' SUMMARIES: the parts are asked for what a part has to remember (per group: COUNT(v), SUM(v),
+    // SUM(v * v), MIN(v), MAX(w), COUNT(*) — no HAVING), the whole for AVG, VARIANCE, SUM, MIN, MAX, COUNT(*) under HAVING COUNT(*) > h;
+    // expected: per key of either part n = n₁ + n₂, kept iff n > h; AVG = (S₁ + S₂) / (c₁ + c₂) truncated, VARIANCE = the rounded
+    // quotient of the exact c·Q − S² and c² (bitwise; C04), SUM / MIN / MAX combined, NULL neutral. COUNT(*) is present, so no group is
+    // without a value entry (D10) in any part: every cut is covered.
+    for _ in 0..p.n(300, 10_000) {
+        let with_key = rng.chance(3, 4);
+        let wher = if rng.chance(1, 3) { " WHERE v > 0" } else { "" };
+        let h = rng.below(3) as i64;
+        let (sel, grp) = if with_key { ("k, ", " GROUP BY k") } else { ("", "") };
+        let qpart = format!("SELECT {}COUNT(v), SUM(v), SUM(v * v), MIN(v), MAX(w), COUNT(*) FROM t{}{}", sel, wher, grp);
+        let qwhole = format!("SELECT {}AVG(v), VARIANCE(v), SUM(v), MIN(v), MAX(w), COUNT(*) FROM t{}{} HAVING COUNT(*) > {}", sel, wher, grp, h);
+        let large_split = rng.chance(1, 8);
+        let lines: Vec<String> = gen_typed_input(&mut rng, large_split);
+        let cut = rng.below(lines.len() + 1);
+        run.oracle_checks += 1;
+        let desc = format!("query={} (parts: {}) input={:?} cut={}", qwhole, qpart, lines, cut);
+        match (run_engine_batch(C04_DEF, &qwhole, &lines), run_engine_batch(C04_DEF, &qpart, &lines[..cut].to_vec()), run_engine_batch(C04_DEF, &qpart, &lines[cut..].to_vec())) {
+            (RowsOutcome::Rows { rows: w, .. }, RowsOutcome::Rows { rows: ra, .. }, RowsOutcome::Rows { rows: rb, .. }) => {
+                let expected = merge_summaries(with_key, h, &ra, &rb);
+                let same = w.len() == expected.len() && w.iter().zip(expected.iter()).all(|(x, y)| x.len() == y.len() && x.iter().zip(y.iter()).all(|(a, b)| match (a, b) {
+                    (Value::Float(a), Value::Float(b)) => a.0.to_bits() == b.0.to_bits(),
+                    _ => a == b,
+                }));
+                if !same { run.fail(desc, "split-merge-of-summaries-differs", format!("whole={:?} from the parts' summaries={:?}", w, expected)); }
+                run.count("split-summaries-checked");
             }
             (RowsOutcome::Panic(m), _, _) | (_, RowsOutcome::Panic(m), _) | (_, _, RowsOutcome::Panic(m)) => run.fail(desc, "panic:split", m),
             _ => run.count("split-error"),
@@ -196,4 +303,31 @@ fn merge(with_key: bool, a: &[Vec<Value>], b: &[Vec<Value>]) -> Vec<Vec<Value>> 
         let y = b.iter().find(|r| &r[0] == k);
         match (x, y) { (Some(x), Some(y)) => combine(x, y), (Some(x), None) => x.clone(), (None, Some(y)) => y.clone(), (None, None) => unreachable!() }
     }).collect()
+}
+
+/// the table of `SELECT [k,] AVG(v), VARIANCE(v), SUM(v), MIN(v), MAX(w), COUNT(*) … HAVING COUNT(*) > h` from the two parts' summary
+/// tables `[k,] COUNT(v), SUM(v), SUM(v * v), MIN(v), MAX(w), COUNT(*)`: groups = the union of the parts' groups (ascending), summaries
+/// combined (counts and sums add, extremes combine, NULL neutral), THEN HAVING, then the finished cells
+fn merge_summaries(with_key: bool, h: i64, a: &[Vec<Value>], b: &[Vec<Value>]) -> Vec<Vec<Value>> {
+    let off = if with_key { 1 } else { 0 };
+    let int = |v: &Value| -> Option<i128> { if let Value::Int(x) = v { Some(*x as i128) } else { None } };
+    let finish = |key: Option<&Value>, x: Option<&Vec<Value>>, y: Option<&Vec<Value>>| -> Option<Vec<Value>> {
+        let cell = |i: usize, f: &dyn Fn(&Value, &Value) -> Value| -> Value { match (x, y) { (Some(x), Some(y)) => f(&x[off + i], &y[off + i]), (Some(x), None) => x[off + i].clone(), (None, Some(y)) => y[off + i].clone(), (None, None) => Value::Null } };
+        let (cv, s, q, mn, mx, n) = (cell(0, &add), cell(1, &add), cell(2, &add), cell(3, &least), cell(4, &greatest), cell(5, &add));
+        if !(int(&n)? > h as i128) { return None; }
+        let c = int(&cv)?;
+        let (avg, var) = match (int(&s), int(&q)) {
+            (Some(s), Some(q)) if c > 0 => (Value::Int((s / c) as i64), Value::Float(sqlgrep::model::Float((c * q - s * s) as f64 / (c * c) as f64))),
+            _ => (Value::Null, Value::Null),
+        };
+        let mut r = Vec::new();
+        if let Some(k) = key { r.push(k.clone()); }
+        r.extend(vec![avg, var, s, mn, mx, n]);
+        Some(r)
+    };
+    if !with_key { return finish(None, a.first(), b.first()).into_iter().filter(|_| !(a.is_empty() && b.is_empty())).collect(); }
+    let mut keys: Vec<Value> = a.iter().chain(b.iter()).map(|r| r[0].clone()).collect();
+    keys.sort();
+    keys.dedup();
+    keys.iter().filter_map(|k| finish(Some(k), a.iter().find(|r| &r[0] == k), b.iter().find(|r| &r[0] == k))).collect()
 }
